@@ -1,6 +1,6 @@
 (* Proofs about model/Cluster.v (C18). *)
 From Coq Require Import String List ZArith NArith Bool Lia PeanoNat Permutation.
-From NSQV Require Import model.Judge model.Cluster.
+From NSQV Require Import model.Judge model.Cluster gen.ClusterTables.
 Import ListNotations.
 Open Scope list_scope.
 Open Scope Z_scope.
@@ -1107,4 +1107,112 @@ Proof.
       + inversion H; subst. rewrite Nat.add_0_r. auto.
       + destruct (IH (S k) i t b H) as [H1 H2]. split. exact H1. rewrite H2. f_equal. lia. }
   intros i t b H. apply (G topics 0%nat i t b H).
+Qed.
+
+(* ------------------------------------------------------------------ the shapes the model was written against
+   (gen/ClusterTables.v is regenerated from internal/clusterinfo and internal/quantile on every
+   run: an edit of what Add sums, of the error rule, of a nil guard or of the tombstone pairing
+   breaks one of these) *)
+Lemma topic_add_shape_current :
+  topic_add_fields = ["Depth"; "MemoryDepth"; "BackendDepth"; "MessageCount"; "DeliveryMsgCount";
+                      "ZoneLocalMsgCount"; "RegionLocalMsgCount"; "GlobalMsgCount"]%string /\
+  topic_add_other = ["if a.Paused"; "t.Paused = a.Paused"]%string /\
+  length topic_add_fields = length tfields.
+Proof. repeat split; reflexivity. Qed.
+
+Lemma channel_add_shape_current :
+  channel_add_fields = ["Depth"; "MemoryDepth"; "BackendDepth"; "InFlightCount"; "DeferredCount"; "RequeueCount";
+                        "TimeoutCount"; "MessageCount"; "DeliveryMsgCount"; "ZoneLocalMsgCount"; "RegionLocalMsgCount";
+                        "GlobalMsgCount"; "ClientCount"]%string /\
+  channel_add_other = ["if a.Paused"; "c.Paused = a.Paused"]%string /\
+  channel_add_clients = ["if c.E2eProcessingLatency == nil"; "if client != nil"; "c.Clients = append(c.Clients, client)"]%string /\
+  length channel_add_fields = length cfields.
+Proof. repeat split; reflexivity. Qed.
+
+(* every Get* : hard error iff len(errs) == len(<its upstream list>), partial iff len(errs) > 0 *)
+Definition get_rule_ok (e : string * list string) : bool :=
+  match snd e with
+  | [hard; partial] =>
+      (String.eqb hard "len(errs) == len(lookupdHTTPAddrs) => hard" || String.eqb hard "len(errs) == len(nsqdHTTPAddrs) => hard" ||
+       String.eqb hard "len(errs) == len(producers) => hard") && String.eqb partial "len(errs) > 0 => partial"
+  | [partial] => String.eqb partial "len(errs) > 0 => partial"
+  | _ => false
+  end.
+Lemma error_rules_current :
+  forallb get_rule_ok ci_error_rules = true /\
+  map fst (filter (fun e => Nat.eqb (length (snd e)) 2) ci_error_rules) =
+  ["GetLookupdProducers"; "GetLookupdTopicChannels"; "GetLookupdTopicProducers"; "GetLookupdTopics";
+   "GetNSQDProducers"; "GetNSQDStats"; "GetNSQDTopicProducers"; "GetNSQDTopics"]%string.
+Proof. split; vm_compute; reflexivity. Qed.
+
+Lemma nil_guards_current :
+  ci_nil_guards = [("GetLookupdProducers", ["producer == nil"]); ("GetLookupdTopicProducers", ["p == nil"]);
+                   ("GetNSQDStats", ["topic == nil"; "channel == nil"; "c == nil"])]%string /\
+  quantile_nil_guards = ["UnmarshalJSON: p == nil => continue"; "Add: e2 == nil => return"]%string /\
+  producer_tombstone_exprs = ["i < len(r.Tombstoned) && r.Tombstoned[i]"; "Tombstoned: tombstoned"]%string.
+Proof. repeat split; reflexivity. Qed.
+
+(* ------------------------------------------------------------------ the order of the upstreams does not matter
+   (the code processes each answer under a lock in the completion order of its fetch
+   goroutines: some permutation of the upstream list) *)
+Lemma sumZ_perm : forall l l', Permutation l l' -> sumZ l = sumZ l'.
+Proof. intros l l' H. induction H; simpl; lia. Qed.
+Lemma filter_perm : forall (A : Type) (f : A -> bool) l l', Permutation l l' -> Permutation (filter f l) (filter f l').
+Proof.
+  intros A f l l' H. induction H; simpl.
+  - constructor.
+  - destruct (f x). apply perm_skip. exact IHPermutation. exact IHPermutation.
+  - destruct (f x); destruct (f y); try apply Permutation_refl. apply perm_swap.
+  - eapply perm_trans; eassumption.
+Qed.
+Lemma existsb_perm : forall (A : Type) (f : A -> bool) l l', Permutation l l' -> existsb f l = existsb f l'.
+Proof.
+  intros A f l l' H. induction H; simpl.
+  - reflexivity.
+  - rewrite IHPermutation. reflexivity.
+  - destruct (f x); destruct (f y); reflexivity.
+  - congruence.
+Qed.
+Lemma flat_map_perm : forall (A B : Type) (g : A -> list B) l l', Permutation l l' -> Permutation (flat_map g l) (flat_map g l').
+Proof. intros A B g l l' H. apply Permutation_flat_map. exact H. Qed.
+Lemma answers_perm : forall (K A : Type) (ups ups' : list (K * fetch A)), Permutation ups ups' -> Permutation (answers ups) (answers ups').
+Proof. intros K A ups ups' H. unfold answers. apply flat_map_perm. exact H. Qed.
+Lemma all_entries_perm : forall ups ups' sel, Permutation ups ups' -> Permutation (all_entries ups sel) (all_entries ups' sel).
+Proof. intros ups ups' sel H. unfold all_entries. apply flat_map_perm. apply answers_perm. exact H. Qed.
+
+Theorem channel_sums_order_independent : forall ups ups' sel k, Permutation ups ups' ->
+  match cmap_find k (snd (stats_value ups sel)), cmap_find k (snd (stats_value ups' sel)) with
+  | Some v, Some v' =>
+      (forall f, In f cfields -> f (ca_num v) = f (ca_num v')) /\ ca_paused v = ca_paused v' /\
+      Permutation (ca_nodes v) (ca_nodes v') /\ Permutation (ca_clients v) (ca_clients v')
+  | None, None => True
+  | _, _ => False
+  end.
+Proof.
+  intros ups ups' sel k H.
+  pose proof (channel_sums ups sel k) as A. pose proof (channel_sums ups' sel k) as B. cbv zeta in A, B.
+  pose proof (filter_perm _ (fun e => bytes_eqb (ekey sel e) k) _ _ (all_entries_perm ups ups' sel H)) as P.
+  destruct (cmap_find k (snd (stats_value ups sel))) as [v|]; destruct (cmap_find k (snd (stats_value ups' sel))) as [v'|].
+  - destruct A as [_ [A1 [A2 [A3 A4]]]]. destruct B as [_ [B1 [B2 [B3 B4]]]]. split; [|split; [|split]].
+    + intros f Hf. rewrite (A1 f Hf), (B1 f Hf). f_equal. apply sumZ_perm. apply Permutation_map. exact P.
+    + rewrite A2, B2. apply existsb_perm. exact P.
+    + rewrite A3, B3. apply Permutation_map. exact P.
+    + rewrite A4, B4. apply flat_map_perm. exact P.
+  - destruct A as [A0 _]. rewrite B in P. apply Permutation_sym in P. apply Permutation_nil in P. contradiction.
+  - destruct B as [B0 _]. rewrite A in P. apply Permutation_nil in P. contradiction.
+  - exact I.
+Qed.
+
+(* likewise the topic aggregate does not depend on the order of the nodes *)
+Theorem topic_sums_order_independent : forall nodes nodes', Permutation nodes nodes' ->
+  (forall f, In f tfields -> f (ta_num (tagg_of nodes)) = f (ta_num (tagg_of nodes'))) /\
+  ta_paused (tagg_of nodes) = ta_paused (tagg_of nodes') /\
+  Permutation (ta_nodes (tagg_of nodes)) (ta_nodes (tagg_of nodes')).
+Proof.
+  intros nodes nodes' H.
+  destruct (topic_sums nodes) as [A1 [A2 A3]]. destruct (topic_sums nodes') as [B1 [B2 B3]]. cbv zeta in *.
+  split; [|split].
+  - intros f Hf. rewrite (A1 f Hf), (B1 f Hf). f_equal. apply sumZ_perm. apply Permutation_map. exact H.
+  - rewrite A2, B2. apply existsb_perm. exact H.
+  - rewrite A3, B3. apply Permutation_map. exact H.
 Qed.
